@@ -165,6 +165,9 @@ func main() {
 	if o.Thorough() {
 		n = 1200
 	}
+	// past failures first (checks/../corpus/<id>.txt: witnesses of repaired defects and of seeded changes), then n generated scenarios
+	scens := o.Scens("SCEN", n)
+	n = len(scens)
 	results := make([][]runRes, n)
 	var wg sync.WaitGroup
 	sem := make(chan struct{}, 12)
@@ -174,7 +177,7 @@ func main() {
 		go func(i int) {
 			defer wg.Done()
 			defer func() { <-sem }()
-			results[i] = scenario(o.Seed, i, o.Tier, filepath.Join(o.Out, "sys"))
+			results[i] = scenario(scens[i].Seed, scens[i].Idx, scens[i].Tier, filepath.Join(filepath.Join(o.Out, "sys"), fmt.Sprintf("k%d", i)))
 		}(i)
 	}
 	wg.Wait()
@@ -185,7 +188,7 @@ func main() {
 				out.Count(c)
 			}
 			for _, fl := range r.fails {
-				out.Fail(fl[0], fl[1], fmt.Sprintf("SCEN %d %d %s", o.Seed, i, o.Tier))
+				out.Fail(fl[0], fl[1], scens[i].String())
 			}
 		}
 	}
